@@ -1,6 +1,13 @@
 //@file kiki/src/data/machine.rs mod=crate::data::machine
+//@[ imports
+use vstd::prelude::*;
+use vstd::std_specs::cmp::*;
+//@]
 use crate::data::{table::Quasiterminal, *};
 
+//@[ T8: derived Clone kept external; its structural contract is assumed below
+#[verifier::external_derive(Clone)]
+//@]
 #[derive(Debug, Clone, PartialEq, Eq, PartialOrd, Ord, Hash)]
 pub struct Machine {
     pub start: StateIndex,
@@ -9,14 +16,18 @@ pub struct Machine {
 }
 
 impl Machine {
-    //@[ T: iterator adapters / formatting outside the supported subset (body not verified)
+    //@[ T: Iterator::find_map is outside the supported subset (body not verified; contract assumed)
     #[verifier::external_body]
     //@]
     pub fn get_shift_dest(
         &self,
         start: StateIndex,
         terminal: &DollarlessTerminalName,
-    ) -> Option<StateIndex> {
+    ) -> /*@[*/(r: /*@]*/Option<StateIndex>/*@[*/)/*@]*/
+        //@[ assumed contract: target of the first transition (in set order) from `start` on `terminal`
+        ensures r == shift_dest(self.transitions.seq(), start, *terminal, 0),
+        //@]
+    {
         self.transitions.iter().find_map(|t| {
             if t.from == start && t.symbol == *terminal {
                 Some(t.to)
@@ -27,6 +38,13 @@ impl Machine {
     }
 }
 
+//@[ spec side of the mixed comparison Symbol == DollarlessTerminalName
+impl PartialEqSpecImpl<DollarlessTerminalName> for Symbol {
+    open spec fn obeys_eq_spec() -> bool { true }
+    open spec fn eq_spec(&self, other: &DollarlessTerminalName) -> bool { *self == Symbol::Terminal(*other) }
+}
+//@]
+
 impl PartialEq<DollarlessTerminalName> for Symbol {
     fn eq(&self, other: &DollarlessTerminalName) -> bool {
         match self {
@@ -36,11 +54,17 @@ impl PartialEq<DollarlessTerminalName> for Symbol {
     }
 }
 
+//@[ T8: derived Clone kept external; its structural contract is assumed below
+#[verifier::external_derive(Clone)]
+//@]
 #[derive(Debug, Clone, PartialEq, Eq, PartialOrd, Ord, Hash)]
 pub struct State {
     pub items: Oset<StateItem>,
 }
 
+//@[ T8: derived Clone kept external; its structural contract is assumed below
+#[verifier::external_derive(Clone)]
+//@]
 #[derive(Debug, Clone, PartialEq, Eq, PartialOrd, Ord, Hash)]
 pub struct StateItem {
     pub rule_index: RuleIndex,
@@ -56,6 +80,9 @@ pub enum RuleIndex {
     Augmented,
 }
 
+//@[ T8: derived Clone kept external; its structural contract is assumed below
+#[verifier::external_derive(Clone)]
+//@]
 #[derive(Debug, Clone, PartialEq, Eq, PartialOrd, Ord, Hash)]
 pub enum Lookahead {
     Terminal(DollarlessTerminalName),
@@ -63,7 +90,11 @@ pub enum Lookahead {
 }
 
 impl Lookahead {
-    pub fn as_quasiterminal(&self) -> Quasiterminal {
+    pub fn as_quasiterminal(&self) -> /*@[*/(r: /*@]*/Quasiterminal/*@[*/)/*@]*/
+        //@[ C04 C17 Lookahead::as_quasiterminal
+        ensures r == la_quasi(self),
+        //@]
+    {
         match self {
             Lookahead::Terminal(t) => Quasiterminal::Terminal(t),
             Lookahead::Eof => Quasiterminal::Eof,
@@ -71,6 +102,9 @@ impl Lookahead {
     }
 }
 
+//@[ T8: derived Clone kept external; its structural contract is assumed below
+#[verifier::external_derive(Clone)]
+//@]
 #[derive(Debug, Clone, PartialEq, Eq, PartialOrd, Ord, Hash)]
 pub struct Transition {
     pub from: StateIndex,
@@ -80,3 +114,35 @@ pub struct Transition {
 
 #[derive(Debug, Clone, Copy, PartialEq, Eq, PartialOrd, Ord, Hash)]
 pub struct StateIndex(pub usize);
+
+//@[ ghost vocabulary for lookaheads
+pub open spec fn la_quasi<'a>(la: &'a Lookahead) -> Quasiterminal<'a> {
+    match la { Lookahead::Terminal(t) => Quasiterminal::Terminal(t), Lookahead::Eof => Quasiterminal::Eof }
+}
+//@]
+
+//@[ ghost vocabulary for transitions
+/// target of the first transition at index >= i from `start` on terminal `t`
+pub open spec fn shift_dest(ts: Seq<Transition>, start: StateIndex, t: DollarlessTerminalName, i: int) -> Option<StateIndex>
+    decreases ts.len() - i
+{
+    if i < 0 || i >= ts.len() { None }
+    else if ts[i].from == start && ts[i].symbol == Symbol::Terminal(t) { Some(ts[i].to) }
+    else { shift_dest(ts, start, t, i + 1) }
+}
+
+// T8: derived PartialEq / Clone are structural (trusted)
+impl PartialEqSpecImpl for StateIndex {
+    open spec fn obeys_eq_spec() -> bool { true }
+    open spec fn eq_spec(&self, other: &StateIndex) -> bool { *self == *other }
+}
+impl PartialEqSpecImpl for RuleIndex {
+    open spec fn obeys_eq_spec() -> bool { true }
+    open spec fn eq_spec(&self, other: &RuleIndex) -> bool { *self == *other }
+}
+pub assume_specification[ <StateItem as Clone>::clone ](x: &StateItem) -> (r: StateItem) ensures r == *x;
+pub assume_specification[ <Lookahead as Clone>::clone ](x: &Lookahead) -> (r: Lookahead) ensures r == *x;
+pub assume_specification[ <Machine as Clone>::clone ](x: &Machine) -> (r: Machine) ensures r == *x;
+pub assume_specification[ <State as Clone>::clone ](x: &State) -> (r: State) ensures r == *x;
+pub assume_specification[ <Transition as Clone>::clone ](x: &Transition) -> (r: Transition) ensures r == *x;
+//@]
